@@ -278,3 +278,24 @@ pub assume_specification<T: PartialEq<U>, U, A: core::alloc::Allocator>[ <Vec<T,
         <T as vstd::std_specs::cmp::PartialEqSpec<U>>::obeys_eq_spec() ==>
             r == (a@.len() == b@.len() && forall|i: int| 0 <= i < a@.len() ==> (#[trigger] a@[i]).eq_spec(&b@[i]));
 }
+verus! {
+// ---------------------------------------------------------------- R4: Box<dyn Fn(&V) -> bool>
+/// Stand-in for `Box<dyn Fn(&V) -> bool>` (Verus rejects `dyn Fn`).  The predicate's meaning
+/// is the wrapped closure's `ensures`; dynamic dispatch itself is dropped.
+#[verifier::reject_recursive_types(V)]
+pub struct DynPred<V> { pub p: Ghost<spec_fn(V) -> bool> }
+impl<V> DynPred<V> {
+    #[verifier::external_body]
+    pub fn new<F: Fn(&V) -> bool>(f: F) -> (r: Self)
+        requires
+            forall|v: V| #[trigger] f.requires((&v,)),
+            forall|v: V| !(#[trigger] f.ensures((&v,), true) && f.ensures((&v,), false)),
+        ensures
+            forall|v: V| #[trigger] (r.p@)(v) <==> f.ensures((&v,), true),
+    { unimplemented!() }
+    #[verifier::external_body]
+    pub fn call(&self, v: &V) -> (b: bool)
+        ensures b == (self.p@)(*v)
+    { unimplemented!() }
+}
+}
